@@ -31,7 +31,10 @@ RULE = ('cases: extent pairs, bounding boxes (boundary) of 1..5 fields incl. who
         'origin (0-d and (1,1)), collections whose FIRST field spans the whole bounding box or with identical extents; inserts into '
         'targets 1..8 drawn by category (inside / clipped on the top, bottom, left or right side / corner or two-sided clipping / '
         'wholly outside on each side / uniform offsets in [-9,9] / 0-d field); data = small Gaussian integers; every '
-        'mul/merge/reduce/insert is run twice on the same operand objects with byte snapshots around it. thorough adds two '
+        'mul/merge/reduce/insert is run twice on the same operand objects with byte snapshots around it. An extremes stream (4 % '
+        'of quick, 5 % of thorough, a third of the failing-input search) adds: one-element/array products, merges, reduces and '
+        'inserts at offsets 1e5 .. 2^40 (equal, or one or two pixels apart), reduces/overlaps of 33..70 fields (tiles sharing '
+        'exactly one pixel row/column, abutting tiles, one-pixel-wide bars), and 1-D-like products/inserts of 65..500 (search: 2600) samples. thorough adds two '
         'exhaustive enumerations: every insert with field shape <= 3x3, offset in [-4,4]^2, target <= 4x4 (11 664 cases), and every '
         'extent pair a = shape <= 5x5 at the origin (plus four shifted copies), b = shape <= 5x5 at offset in [-6,6]^2; corpus: D20 '
         'witnesses (fields wholly outside), the 0-d merge witness fixed by 5cccd0c, spanning-first-field collections, run first. '
@@ -62,7 +65,7 @@ def _field(rng, kmax=5, omax=6, allow_one=True, zero_d=False):
     return gi_field(rng, shape, off)
 
 def generate(rng, tier):
-    n = {'quick': 3000, 'thorough': 20000, 'search': 3000}[tier]
+    n = {'quick': 2500, 'thorough': 20000, 'search': 3000}[tier]
     out = []
     for k in range(n):
         t = k % 10
@@ -117,8 +120,97 @@ def generate(rng, tier):
                 out.append({'kind': 'reduce', 'fields': fs})
         else:
             out.append(_insert_case(rng))
+    # extremes stream: huge offsets, > 32 fields, long 1-D shapes (a small sample in quick/thorough, a large one in search)
+    out += _extremes(rng, {'quick': n // 25, 'thorough': n // 20, 'search': n // 3}[tier], lmax=2600 if tier == 'search' else 500)
     if tier == 'thorough':
         out += exhaustive_extents() + exhaustive_inserts()
+    return out
+
+_BASES = (10 ** 5, 10 ** 5 + 1, 131072, 10 ** 6, 123456789, 2 ** 31 - 1, 2 ** 31, 2 ** 32 + 5, 10 ** 12, 2 ** 40)
+
+def _base(rng, signed=True):
+    b = [int(_BASES[int(rng.integers(0, len(_BASES)))]) if rng.integers(0, 4) else int(rng.integers(-3, 4)) for _ in range(2)]
+    if b[0] == 0 and b[1] == 0: b[int(rng.integers(0, 2))] = int(_BASES[int(rng.integers(0, len(_BASES)))])
+    if signed: b = [x * (-1 if rng.integers(0, 3) == 0 else 1) for x in b]
+    return b
+
+def _shifted(f, b):
+    g = dict(f); g['off'] = [f['off'][0] + b[0], f['off'][1] + b[1]]
+    return g
+
+def _many(rng):
+    """33..70 fields: tiles that share exactly one pixel row/column with their neighbours (stride = size - 1), abut without
+    sharing (stride = size) or leave gaps, 1-pixel-wide bars crossing them, and random small fields"""
+    n = int(rng.integers(33, 71))
+    mode = int(rng.integers(0, 4))
+    fs = []
+    if mode <= 1:
+        h, w = int(rng.integers(1, 5)), int(rng.integers(1, 5))
+        cols = int(rng.integers(3, 10))
+        sr = h - 1 if mode == 0 else h + int(rng.integers(0, 2))
+        sc = w - 1 if mode == 0 else w + int(rng.integers(0, 2))
+        if mode == 0 and rng.integers(0, 2): sr, sc = (h - 1, w) if rng.integers(0, 2) else (h, w - 1)   # chains along one axis only
+        sr, sc = max(sr, 1), max(sc, 1)
+        o = [int(x) for x in rng.integers(-6, 7, 2)]
+        for i in range(n):
+            r, q = divmod(i, cols)
+            fs.append(gi_field(rng, (h, w), (o[0] + r * sr, o[1] + q * sc)))
+    elif mode == 2:
+        for i in range(n):
+            if i % 3 == 0:   # bars, one pixel wide
+                L = int(rng.integers(2, 12))
+                shape = (1, L) if rng.integers(0, 2) else (L, 1)
+            else: shape = (int(rng.integers(1, 4)), int(rng.integers(1, 4)))
+            fs.append(gi_field(rng, shape, rng.integers(-14, 15, 2)))
+    else:
+        span = int(rng.integers(8, 30))
+        for i in range(n): fs.append(_field(rng, kmax=3, omax=span, allow_one=True))
+    if rng.integers(0, 2): fs = [fs[i] for i in rng.permutation(len(fs))]
+    return fs
+
+def _extremes(rng, n, lmax=2600):
+    out = []
+    for k in range(n):
+        t = k % 8
+        if t <= 1:       # two one-element fields at huge offsets that are equal / differ by a pixel or two
+            b = _base(rng)
+            a = gi_field(rng, (1, 1), b, lo=1); c = gi_field(rng, (1, 1), b, lo=1)
+            d = [(0, 0), (0, 1), (1, 0), (1, 1), (-1, 0), (0, -2), (2, 2), (0, 0)][int(rng.integers(0, 8))]
+            c['off'] = [b[0] + d[0], b[1] + d[1]]
+            if rng.integers(0, 2): a['shape'] = []
+            if rng.integers(0, 2): c['shape'] = []
+            out.append({'kind': 'mul', 'a': a, 'b': c, 'ext': 'huge-offset'})
+        elif t == 2:     # array products at a huge common offset
+            b = _base(rng)
+            a = _field(rng, zero_d=True); c = _field(rng, zero_d=True)
+            c['off'] = [a['off'][0] + int(rng.integers(-2, 3)), a['off'][1] + int(rng.integers(-2, 3))]
+            out.append({'kind': 'mul', 'a': _shifted(a, b), 'b': _shifted(c, b), 'ext': 'huge-offset'})
+        elif t == 3:     # merge / reduce / overlap of a few fields near a huge POSITIVE offset (boundary reaches back to 0 otherwise)
+            b = _base(rng, signed=False); b = [max(x, 0) + 10 for x in b]
+            fs = [_shifted(_field(rng, kmax=4, omax=4, zero_d=True), b) for _ in range(int(rng.integers(2, 6)))]
+            kind = ('merge', 'reduce', 'reduce', 'overlap')[int(rng.integers(0, 4))]
+            out.append({'kind': kind, 'fields': fs, 'ext': 'huge-offset'})
+        elif t == 4:     # inserts: field at a huge offset (wholly outside), or long 1-D-like field/target
+            if rng.integers(0, 2):
+                c = _insert_case(rng); c['field'] = _shifted(c['field'], _base(rng)); c['ext'] = 'huge-offset'
+            else:
+                L = int(rng.integers(65, lmax)); T = int(rng.integers(65, lmax))
+                tr = bool(rng.integers(0, 2))
+                f = gi_field(rng, (L, int(rng.integers(1, 3))) if tr else (int(rng.integers(1, 3)), L), (0, 0))
+                sh = int(rng.integers(-(L + T) // 2 - 2, (L + T) // 2 + 3))
+                f['off'] = [sh, int(rng.integers(-2, 3))] if tr else [int(rng.integers(-2, 3)), sh]
+                o = gi_field(rng, (T, int(rng.integers(1, 4))) if tr else (int(rng.integers(1, 4)), T), (0, 0))
+                c = {'kind': 'insert', 'field': f, 'out': o, 'weight': int(rng.integers(-2, 4)), 'intensity': bool(rng.integers(0, 2)), 'ext': 'long'}
+            out.append(c)
+        elif t == 5:     # long 1-D-like products
+            L = int(rng.integers(65, lmax)); M = int(rng.integers(65, lmax)); tr = bool(rng.integers(0, 2))
+            sh = int(rng.integers(-(L + M) // 2 - 2, (L + M) // 2 + 3))
+            a = gi_field(rng, (L, 1) if tr else (1, L), (0, 0)); c = gi_field(rng, (M, 2) if tr else (2, M), (sh, 0) if tr else (0, sh))
+            out.append({'kind': 'mul', 'a': a, 'b': c, 'ext': 'long'})
+        else:            # more than 32 fields
+            fs = _many(rng)
+            kind = ('reduce', 'reduce', 'overlap')[int(rng.integers(0, 3))]
+            out.append({'kind': kind, 'fields': fs, 'ext': 'many'})
     return out
 
 _SIDES = ('top', 'bottom', 'left', 'right')
@@ -286,7 +378,7 @@ def tags(c):
     if k == 'boundary':
         es = [ext_of(f['shape'], f['off']) for f in c['fields']]
         if max(e[1] for e in es) < 0 or max(e[3] for e in es) < 0: t.append('boundary:negative-side')
-    if k == 'reduce': t.append(f"reduce:n={len(c['fields'])}")
+    if k == 'reduce': t.append(f"reduce:n={len(c['fields'])}" if len(c['fields']) <= 6 else 'reduce:n>6')
     if k in ('merge', 'reduce', 'merge_public', 'overlap'):
         fs = c['fields']; es = [ext_of(f['shape'], f['off']) for f in fs]
         if any(len(f['shape']) < 2 for f in fs): t.append(k + ':has-0d')
@@ -301,6 +393,8 @@ def tags(c):
         if c.get('ps') and c['ps'][0] != c['ps'][1]: t.append('merge_public:pixelscale-differs')
     if k == 'overlap': t.append('overlap:n=2' if len(c['fields']) == 2 else 'overlap:n!=2')
     if k == 'insert' and len(c['field']['shape']) < 2: t.append('insert:0d-field')
+    if c.get('ext'): t.append('extreme:' + c['ext'])
+    if k in ('reduce', 'overlap') and len(c['fields']) > 32: t.append(k + ':n>32')
     return t
 
 # ------------------------------------------------------------------------------------------ implementation
